@@ -6,7 +6,8 @@
 (* for ALL token lists over a small token alphabet up to a length bound       *)
 (* (refinement  machine => declarative rule).                                 *)
 EXTENDS Lines
-CONSTANTS MaxToks
+CONSTANTS MaxToks,
+          OldShift      \* TRUE: the design before fix a1434e9 (the position of a shortened token is advanced even if it is fixed)
 VARIABLES toks, off, phase, work, lout
 vars == <<toks, off, phase, work, lout>>
 
@@ -56,7 +57,7 @@ Step == /\ phase = "run" /\ work # <<>>
               LET t1 == b[1].t   t2 == b[Len(b)].t
                   t1n == [t1 EXCEPT !.t = IF HasNL(t1.t) THEN SubSeq(t1.t, 1, LastNL(t1.t)) ELSE <<>>]
                   cut == IF HasNL(t2.t) THEN FirstNL(t2.t) ELSE Len(t2.t)
-                  t2n == [t2 EXCEPT !.t = SubSeq(t2.t, cut + 1, Len(t2.t)), !.p = t2.p + cut]
+                  t2n == [t2 EXCEPT !.t = SubSeq(t2.t, cut + 1, Len(t2.t)), !.p = IF t2.f /\ ~OldShift THEN t2.p ELSE t2.p + cut]
                   langs == SelectSeq([i \in 1..Len(b) |-> b[i].t], LAMBDA t : t.k = "LanguageToken")
                   e2 == [t |-> t2n, force |-> b[Len(b)].force, cs |-> FALSE]
               IN /\ lout' = lout \o <<t1n>> \o langs
@@ -72,9 +73,9 @@ Spec == Init /\ [][Next]_vars /\ WF_vars(Step \/ Finish)
 
 Result == SelectSeq(lout, LAMBDA t : t.t # <<>> \/ t.k = "LanguageToken")
 \* ---- refinement: the machine computes what the declarative rule says (text and positions) ----
-\* (for a fixed-position token the rule cannot know which copy of the position a shortened token keeps: compare text only there)
+\* (a token with fixed position keeps it when it is shortened: all its characters stand for one place of the source)
 Refines == phase = "done" => Chars(SelectSeq(Flat(Result), LAMBDA e : e.c # "ACT")) = Chars(RefOut(toks))
-RefinesPos == (phase = "done" /\ \A i \in 1..Len(toks) : ~toks[i].f) => SelectSeq(Flat(Result), LAMBDA e : e.c # "ACT") = RefOut(toks)
+RefinesPos == phase = "done" => SelectSeq(Flat(Result), LAMBDA e : e.c # "ACT") = RefOut(toks)
 \* the work list shrinks or the output grows: termination
 Terminates == (phase = "run") ~> (phase = "done")
 =============================================================================
